@@ -383,7 +383,8 @@ class SQLiteProvider(DBAPIProvider):
                     sql = 'PRAGMA foreign_keys = false'
                     if core.local.debug: log_orm(sql)
                     cursor.execute(sql)
-                cache.saved_fk_state = bool(fk)
+                if fk or cache.saved_fk_state is None:  # a later transaction of the same session sees the checks already off
+                    cache.saved_fk_state = bool(fk)
                 assert cache.immediate
 
             if cache.immediate:
